@@ -1,2 +1,7 @@
 //! shared helpers for the relay monitors
+<<<<<<< HEAD
 pub mod proto_util;
+=======
+
+pub mod rig;
+>>>>>>> ag3
